@@ -245,6 +245,11 @@ func check(c *reqcase.Case, rq *reqcase.ReqSpec, ob reqcase.Obs) (string, bool) 
 func TestPropDispatch(t *testing.T) {
 	rapid.Check(t, func(t *rapid.T) {
 		c := reqcase.GenCase().Draw(t, "case")
+		if rapid.IntRange(0, 7).Draw(t, "failpub") == 0 {
+			// the connection refuses one publish of the case (as a server does with an oversized
+			// message): if that was a handler's answer, nothing else may be sent in its place
+			c.FailPub = rapid.IntRange(2, 2+3*len(c.Reqs)).Draw(t, "failpubN")
+		}
 		r := reqcase.Run(&c)
 		if r.StartErr != nil {
 			t.Fatalf("service did not start: %v", r.StartErr)
@@ -254,6 +259,9 @@ func TestPropDispatch(t *testing.T) {
 		}
 		for i := range r.Obs {
 			rq := c.Reqs[i]
+			if r.FailedPub != "" && r.FailedPub == r.Obs[i].Reply && len(r.Obs[i].Resp) == 0 {
+				continue // its answer is what the connection refused; nothing was sent in its place
+			}
 			msg, nt := check(&c, &rq, r.Obs[i])
 			ev.Case(nt, evid.Hash(fmt.Sprint(c.Handlers), rq.Subject, rq.Payload, rq.Script.String()), "request")
 			if msg != "" {
